@@ -15,7 +15,7 @@ theorem exec_seq_eq (fuel : Nat) (a b : St) (s s1 : State F) (h : exec fuel a s 
   simp only [exec, h, hc, if_true]
 
 /-- `a; b` when `a` stops the program -/
-theorem exec_seq_stop (fuel : Nat) (a b : St) (s s1 : State F) (h : exec fuel a s = s1) (hc : s1.ctl ≠ .run) :
+theorem exec_seq_stop_eq (fuel : Nat) (a b : St) (s s1 : State F) (h : exec fuel a s = s1) (hc : s1.ctl ≠ .run) :
     exec fuel (.seq a b) s = s1 := by
   simp only [exec, h, hc, if_false]
 
